@@ -46,6 +46,8 @@ class World:
             out += a.ops(ctx)
         if getattr(self, "wallet_ops", False):
             out += wallet_ops(ctx)
+        if getattr(self, "extra_ops", None):
+            out += self.extra_ops(ctx)
         return out
 
 
@@ -120,6 +122,20 @@ def uni_world(orient="q0", frozen_bar=1, closes=(200000, 200013, 199991), fee_vo
     )
     w = World(f"uni({orient})", build, roots, {"uni.data": data, "prices": prices})
     w.wallet_ops = orient == "q0"  # the wallet's own swaps are explored once, beside the pool quoted in token0 (and beside the lending market)
+    if late_price:
+        # the strategy buys the late-listed token once it has a price: a token no market of the account knows, entering the wallet in mid-run
+        def extra(ctx):
+            from .kit import Op
+
+            late = TokenInfo("LATE", 18)
+
+            def call(c):
+                row = c.price_row()
+                if not Decimal(row["LATE"]).is_finite():
+                    raise ValueError("LATE has no price yet (the strategy does not trade it before its listing)")
+                return c.broker.swap_by_from(uni.USDC, late, c.broker.get_token_balance(uni.USDC) / 9, row)
+            return [Op("wallet.swap_by_from[USDC->LATE,part]", call, False, "wallet.swap_by_from")]
+        w.extra_ops = extra
     return w
 
 
